@@ -79,7 +79,8 @@ func (r *WordRenderer) Render(doc ast.Node) error {
 			if r.opts.EnableTables {
 				return r.renderTable(n)
 			}
-			return ast.WalkContinue, nil
+			// 表格支持关闭时不生成Word表格，但表格中的文字不能丢失
+			return r.renderTableAsText(n)
 
 		case *extast.TableRow:
 			// TableRow节点由Table处理
@@ -575,6 +576,21 @@ func extractCellEmphasis(cell *extast.TableCell) int {
 	})
 
 	return format
+}
+
+// renderTableAsText 在EnableTables关闭时渲染表格：每一行（含表头）成为一个普通段落，
+// 单元格之间以制表符分隔，单元格内的行内格式照常处理
+func (r *WordRenderer) renderTableAsText(node *extast.Table) (ast.WalkStatus, error) {
+	for row := node.FirstChild(); row != nil; row = row.NextSibling() {
+		para := r.doc.AddParagraph("")
+		for cell := row.FirstChild(); cell != nil; cell = cell.NextSibling() {
+			if cell != row.FirstChild() {
+				para.AddFormattedText("\t", nil)
+			}
+			r.renderInlineContent(cell, para)
+		}
+	}
+	return ast.WalkSkipChildren, nil
 }
 
 // renderTaskCheckBox 渲染任务列表复选框 ✨ 新增功能
